@@ -8,6 +8,7 @@ return (x, ...)` evaluate to the same result under every assignment.
 """
 from __future__ import annotations
 
+from .core import acopy
 import ast
 import copy
 import itertools
@@ -23,7 +24,7 @@ class _Subst(ast.NodeTransformer):
 
     def visit_Name(self, node: ast.Name):
         if isinstance(node.ctx, ast.Load) and node.id in self.env:
-            return copy.deepcopy(self.env[node.id])
+            return acopy(self.env[node.id])
         return node
 
     def visit_Lambda(self, node):
@@ -31,7 +32,7 @@ class _Subst(ast.NodeTransformer):
 
 
 def _subst(e: ast.AST, env: Dict[str, ast.AST]) -> ast.AST:
-    return _Subst(env).visit(copy.deepcopy(e))
+    return _Subst(env).visit(acopy(e))
 
 
 def _decide(c: ast.AST, atoms: Dict[str, bool]) -> Optional[bool]:
